@@ -303,7 +303,16 @@ pub type Hits = Vec<(usize, String)>;
 pub struct St {
     pub store: Store,
     pub lang: &'static str,
+    /// In one case out of three every store keeps ONE query buffer for its whole life and writes each tokenised query into
+    /// it in place (what a caller does that avoids allocating per keystroke): the same memory then holds other content from
+    /// one search to the next.
+    pub reuse_query_buffer: bool,
+    qbuf: std::sync::Mutex<Option<TextOwn>>,
 }
+
+/// Set by the framework before every case (one case at a time per process): decides per case what stores built during it do.
+pub static CASE_SEED: std::sync::atomic::AtomicU64 = std::sync::atomic::AtomicU64::new(0);
+pub static QUERY_BUFFER_REUSES: std::sync::atomic::AtomicU64 = std::sync::atomic::AtomicU64::new(0);
 
 impl St {
     pub fn new(lang: &str, limit: usize, markers: (&str, &str)) -> St {
@@ -311,7 +320,8 @@ impl St {
         store.lang = take_lang(lang);
         store.limit = limit;
         store.highlight_with(markers);
-        St { store, lang: static_name(lang) }
+        let reuse = mix(CASE_SEED.load(std::sync::atomic::Ordering::Relaxed), 0x51b0f) % 3 == 0;
+        St { store, lang: static_name(lang), reuse_query_buffer: reuse, qbuf: std::sync::Mutex::new(None) }
     }
     pub fn sentinel(lang: &str, limit: usize) -> St {
         let (a, b) = (S1.to_string(), S2.to_string());
@@ -335,13 +345,37 @@ impl St {
         let rec = Record::new(r.0, &r.1, r.2, &self.store.lang);
         self.store.add(rec);
     }
-    pub fn search(&self, q: &str) -> Hits {
+    fn run_query(&self, q: &str) -> Vec<SearchResult> {
         let query = tokenize_query(q, &self.store.lang);
-        self.store.search(&query.to_ref()).into_iter().map(|r| (r.id, r.title)).collect()
+        if !self.reuse_query_buffer {
+            return self.store.search(&query.to_ref());
+        }
+        let mut slot = match self.qbuf.lock() {
+            Ok(g) => g,
+            Err(p) => p.into_inner(),
+        };
+        match slot.as_mut() {
+            Some(b) => {
+                b.words.clear();
+                b.words.extend_from_slice(&query.words);
+                b.source.clear();
+                b.source.extend_from_slice(&query.source);
+                b.chars.clear();
+                b.chars.extend_from_slice(&query.chars);
+                b.classes.clear();
+                b.classes.extend_from_slice(&query.classes);
+                QUERY_BUFFER_REUSES.fetch_add(1, std::sync::atomic::Ordering::Relaxed);
+            }
+            None => *slot = Some(query),
+        }
+        let b = slot.as_ref().unwrap();
+        self.store.search(&b.to_ref())
+    }
+    pub fn search(&self, q: &str) -> Hits {
+        self.run_query(q).into_iter().map(|r| (r.id, r.title)).collect()
     }
     pub fn search_ids(&self, q: &str) -> Vec<usize> {
-        let query = tokenize_query(q, &self.store.lang);
-        self.store.search(&query.to_ref()).into_iter().map(|r| r.id).collect()
+        self.run_query(q).into_iter().map(|r| r.id).collect()
     }
     /// The public tokenisation of a query / a title for the ORACLE side. Deliberately not taken with the store's own
     /// language object: a reference computed with the object under observation, in the same order, shares whatever that
